@@ -274,7 +274,10 @@ def oracle(ctx):
                     # tz.tzstr rejects it too): ParserError is the documented outcome ("if the provided tzinfo is not in a valid format")
                     ctx.count("tzinfos_malformed_value_calls")
                     continue
-                if not ok and not (ans == "err OverflowError" and isinstance(exp, datetime.datetime)):
+                # an OverflowError where the fill-in spec has a datetime is excused only when the Lean model raises it too (the
+                # zone object's own overflow next to 0001-01-01 / 9999-12-31, tzoffset beyond timedelta's range)
+                if not ok and not (ans == "err OverflowError" and isinstance(exp, datetime.datetime)
+                                   and L.model_answers(ctx, [c])[0] == ans):
                     ctx.violation("default fill-in / clip / weekday shift: expected %s" % (exp if isinstance(exp, str) else exp.isoformat()),
                                   c.describe(), {"impl": ans, "fields": fields, "weekday": wd})
                     continue
